@@ -9,6 +9,8 @@ import MTfitVerif.Model.Scatangle
 import MTfitVerif.Model.Binary
 import MTfitVerif.Model.Csv
 import MTfitVerif.Model.Acceptance
+import MTfitVerif.Model.Proposal
+import MTfitVerif.Model.Chain
 /- dispatch table of the executable model -/
 namespace MTfitVerif.Driver
 open MTfitVerif Proto
@@ -353,7 +355,74 @@ def opDecide : P String := do
   let u ← flt; let a ← flt; done
   pure (outB (Acceptance.decide u a))
 
+def outTape (x : Acceptance.Tape Float) : String := outFs [x.gamma, x.delta, x.kappa, x.h, x.sigma]
+
+/-- `shift dc w ξ nz z…` → `1 γ δ κ h σ consumed` or `0` -/
+def opShift : P String := do
+  let dc ← bool; let w ← pWidths; let xi ← pTape; let n ← nat; let zs ← flts n; done
+  match Proposal.shiftSample dc w xi zs with
+  | none => pure "0"
+  | some (x, rest) => pure (s!"1 " ++ outTape x ++ s!" {n - rest.length}")
+
+/-- `transd dc p w ξ u nz z…` → `1 γ δ κ h σ jump consumed` or `0` -/
+def opTransD : P String := do
+  let dc ← bool; let p ← flt; let w ← pWidths; let xi ← pTape; let u ← flt; let n ← nat; let zs ← flts n; done
+  match Proposal.transDSample dc p w xi u zs with
+  | none => pure "0"
+  | some (x, j, rest) => pure (s!"1 " ++ outTape x ++ " " ++ outB j ++ s!" {n - rest.length}")
+
+/-- `jumpdraw w nz z…` → `1 γ δ consumed` or `0` -/
+def opJumpDraw : P String := do
+  let w ← pWidths; let n ← nat; let zs ← flts n; done
+  match Proposal.jumpDraw w zs with
+  | none => pure "0"
+  | some (g, d, rest) => pure (s!"1 " ++ outFs [g, d] ++ s!" {n - rest.length}")
+
+def pKeyed : P (List (String × Float)) := do
+  let n ← nat
+  many n (do let k ← str; let v ← flt; pure (k, v))
+
+/-- `adapt minR maxR <max widths> <widths> oldRate nrates r…` → widths after every window -/
+def opAdapt : P String := do
+  let minR ← flt; let maxR ← flt; let maxW ← pKeyed; let ws ← pKeyed; let oldRate ← flt
+  let n ← nat; let rates ← flts n; done
+  let s0 : Proposal.AdaptState Float := { widths := ws, oldRate := oldRate, oldRatio := none, oldWidths := none }
+  let (_, outs) := rates.foldl (fun (acc : Proposal.AdaptState Float × List String) r =>
+      let s' := Proposal.adaptStep minR maxR maxW acc.1 r
+      (s', acc.2 ++ [outFs (s'.widths.map (·.2))])) (s0, [])
+  pure (" ".intercalate outs)
+
+/-- `tapemt6 γ δ κ h σ` → six-vector -/
+def opTapeMt6 : P String := do
+  let x ← pTape; done
+  let v := Convert.tapeToMt6 x.gamma x.delta x.kappa x.h x.sigma
+  pure (outFs [v.a, v.b, v.c, v.d, v.e, v.f])
+
+def pEntry : P Chain.Entry := do
+  let t ← nat; let l ← nat; let d ← bool
+  pure { tok := t, ln := l, isDc := d }
+
+/-- `chain L W C x0 nev (A u tok ln dc | R n)…`
+    → `consumed tried accepted pDc adaptCalls nchain (tok ln)…` (tried/accepted offset by +1 to stay unsigned) -/
+def opChain : P String := do
+  let L ← nat; let W ← nat; let C ← nat; let x0 ← pEntry; let n ← nat
+  let evs ← many n (do
+    let k ← tok
+    if k == "A" then do let u ← nat; let e ← pEntry; pure (Chain.Event.accept u e)
+    else do let m ← nat; pure (Chain.Event.reject m))
+  done
+  let (s, used) := evs.foldl (fun (acc : Chain.State × Nat) ev =>
+      if Chain.finished acc.1 then acc else (Chain.step acc.1 ev, acc.2 + 1)) (Chain.init L W C x0, 0)
+  pure (s!"{used} {s.tried + 1} {s.accepted + 1} {s.pDc} {s.adaptCalls} {s.chain.length} " ++
+    " ".intercalate (s.chain.map fun e => s!"{e.tok} {e.ln}"))
+
 def table : List (String × P String) := [
+  ("shift", opShift),
+  ("transd", opTransD),
+  ("jumpdraw", opJumpDraw),
+  ("adapt", opAdapt),
+  ("tapemt6", opTapeMt6),
+  ("chain", opChain),
   ("transpdf", opTransPdf),
   ("prior", opPrior),
   ("acceptmh", opAcceptMH),
